@@ -201,7 +201,7 @@ class ImageBatch(DataTensor):
                 0,
                 -args[0].ndim,
             ):
-                return [grids[0][int(i)] for i in index]
+                return [grids[0][int(i)] for i in index.reshape(-1)]
         # Functions which may arbitrarily rearrange image data along the batch dimension
         if func in (torch.gather, Tensor.gather):
             if int(kwargs.get("dim", args[1] if len(args) > 1 else 0)) in (0, -args[0].ndim):
